@@ -21,12 +21,20 @@ import (
 )
 
 func MatchPolicies(requestAttributes authorizer.Attributes, policies []proxyv1alpha1.DispatchPolicy) *proxyv1alpha1.DispatchPolicy {
-	for i := range policies {
-		if PolicyMatches(requestAttributes, &policies[i]) {
-			return &policies[i]
-		}
+	if i := matchPolicyIndex(requestAttributes, policies); i >= 0 {
+		return &policies[i]
 	}
 	return nil
+}
+
+// matchPolicyIndex returns the index of the first matching policy, or -1.
+func matchPolicyIndex(requestAttributes authorizer.Attributes, policies []proxyv1alpha1.DispatchPolicy) int {
+	for i := range policies {
+		if PolicyMatches(requestAttributes, &policies[i]) {
+			return i
+		}
+	}
+	return -1
 }
 
 func PolicyMatches(requestAttributes authorizer.Attributes, policy *proxyv1alpha1.DispatchPolicy) bool {
